@@ -813,6 +813,10 @@ class Interp:
             if attr == "shape" and isinstance(base, Field):
                 return (Sym({f"n_{base.space}": 1}),) + ((base.comps,) if base.comps > 1 else ())
             if attr == "T":
+                if isinstance(base, SparseM):
+                    # transposition swaps the roles of the row and column index of every block
+                    m = SparseM([Block(b.col, b.row, b.val, b.mask) for b in base.blocks], base.shape, base.fmt)
+                    return m
                 return base
             return BoundMethod(base, attr)
         if isinstance(base, EnumVal) and attr == "value":
